@@ -2,9 +2,11 @@ package c02
 
 import (
 	"fmt"
+	"os"
 	"sort"
 	"strings"
 	"testing"
+	"time"
 
 	"github.com/insomniacslk/dhcp/dhcpv6"
 	"verif/harness/gen6"
@@ -26,6 +28,7 @@ func runCase(r *mon.Rec, idx int, hits map[int]int) {
 	rng := r.Rand("c02", idx)
 	g := gen6.New(rng, func(c int) bool { _, ok := typed[c]; return ok })
 	g.Budget = 20 + rng.IntN(60)
+	r.Current(replay{Idx: idx})
 	m, want := g.Chain(rng.IntN(9)%(1+rng.IntN(9)), 0)
 	for c, n := range g.Hits {
 		hits[c] += n
@@ -116,7 +119,6 @@ func firstKindDiffErr(err error) string {
 	}, s)
 }
 
-
 func trunc(s string) string {
 	if len(s) > 500 {
 		return s[:500] + "…"
@@ -127,6 +129,9 @@ func trunc(s string) string {
 func TestCheck(t *testing.T) {
 	r := mon.New("C02")
 	defer r.Flush()
+	if os.Getenv("VERIF_REPLAY") == "" {
+		r.Watchdog(60 * time.Second)
+	}
 	typed = v6util.TypedCodes()
 	var rp replay
 	hits := map[int]int{}
